@@ -286,6 +286,7 @@ func enumerate(ctx *hx.Ctx, size uint64, length int) int {
 		if d == length {
 			cl, il := runSeqFast(size, cur)
 			idx := ctx.Corr(cl, il)
+			ctx.Eval()
 			seqOracle(ctx, idx, size, cl, il)
 			ctx.Nontrivial(cl)
 			n++
@@ -326,6 +327,7 @@ func randomSeq(ctx *hx.Ctx, size uint64, length int, probe bool) {
 		cl, il = runSeqFast(size, ops)
 	}
 	idx := ctx.Corr(cl, il)
+	ctx.Eval()
 	seqOracle(ctx, idx, size, cl, il)
 	ctx.Nontrivial(cl)
 	ctx.Kind(fmt.Sprintf("random size=%d probe=%v", size, probe))
@@ -343,8 +345,8 @@ type ev struct {
 
 type concCfg struct {
 	cap, producers, perProducer int
-	errAt                       int  // index in executed order that returns an error (-1 none)
-	closeMode                   int  // 0: close after all done & drained; 1: close concurrently; 2: close before start
+	errAt                       int // index in executed order that returns an error (-1 none)
+	closeMode                   int // 0: close after all done & drained; 1: close concurrently; 2: close before start
 	procs                       int
 	startLate                   bool // Start() after some pushes
 }
@@ -705,6 +707,7 @@ func main() {
 	for _, s := range []uint64{3, 5, 6, 7, 12, 100, 255} {
 		cl, il, _ := runSeq(s, []op{{1, 1}}, false)
 		ctx.Corr(cl, il)
+		ctx.Eval()
 	}
 	exLen := ctx.Budget(6, 8)
 	for _, size := range []uint64{1, 2, 4} {
